@@ -517,6 +517,10 @@ func (m *Machine) callSSAInner(caller *frame, fn *ssa.Function, args []Value, en
 	}
 	m.depth++
 	if m.depth > 2000 {
+		if m.ex.Lim.HangSteps > 0 {
+			// with a termination budget set, unbounded recursion is reported like a loop that does not end
+			m.path.abort("hang", "call depth 2000 exceeded")
+		}
 		m.path.abort("incomplete", "call depth exceeded")
 	}
 	defer func() { m.depth-- }()
